@@ -251,6 +251,18 @@ Formula = simple_family(
     ["MinRoundTrip", "FullRoundTrip"])
 
 
+ValueFam = simple_family(
+    ["C06"], "Value.tla", "Value.cfg", {"thorough": [("Depth2Pool = 0", "Depth2Pool = 1")]}, "value",
+    ["the reference semantics is Value.tla: exact rational arithmetic, coercion of operands (booleans 1/0, empty 0, numeric text parsed, other text #VALUE!), the comparison order number < text < boolean with case-insensitive text and no coercion, left-to-right error propagation, number-to-text for numbers with at most two decimals, and the direct-argument / referenced-cell distinction of SUM, MIN, MAX, AVERAGE, COUNT, COUNTA, AND, OR, CONCAT",
+     "no verdict (NoV) where this module cannot state the reference semantics exactly: powers with non-integer or large exponents, 0^0, number-to-text of long fractions, collation of strings outside a 10-string table, ISBLANK of a computed blank, a range used as a scalar",
+     "the sheet: A1 = 2, A2 = \"a\", A3 = TRUE, A4 empty, A5 = \"12\" (text), A6 = #DIV/0!, A7 = -1.5, A8 = \"TRUE\" (text); ranges A1:A4, A2:A5, A1:A8, A7:A8, A4:A4",
+     "formulas: every construct of the core language over 22 leaves (14 literals, 8 references) at depth 1 (quick: 10 612 formulas); thorough adds every construct over depth-1 operands built from 3 leaves (108 136 formulas); sub-formulas are fully parenthesised",
+     "a disagreement on a formula one of whose operands already disagrees is counted under that operand's signature only (root-cause attribution)",
+     "numbers compared to a relative 1e-12"],
+    "every formula TLC enumerates from Value.tla typed into the engine on the fixed sheet, the computed value compared with the reference value; distinct_nontrivial = distinct (construct, result type) pairs with a verdict.",
+    ["TypeOK"])
+
+
 class ColAttrs:
     PROPS = ["C29"]
     ASSUMPTIONS = ["initial column layouts are written into worksheet.cols of a cloned workbook (public types) and loaded with Model::from_workbook - what an imported file produces; layouts whose observed attributes differ from the spec's reading are skipped and counted (none today)",
@@ -606,6 +618,7 @@ def _wrap(cls, name):
 
 
 TABLE = {"C21": _wrap(Calendar, "calendar"), "C22": _wrap(Grid, "grid"), "C23": _wrap(Lang, "lang"), "C34": _wrap(F4, "f4"), "C19": _wrap(NumberInput, "numinput"), "C20": _wrap(NumberFormat, "numformat"), "C09": _wrap(Formula, "formula"), "C29": _wrap(ColAttrs, "colattrs"), "C30": _wrap(StylesFam, "styles"), "C11": _wrap(Tokens, "tokens"), "C08": _wrap(FiniteFam, "finite"), "C25": _wrap(XlsxFaultsFam, "xlsxfaults")}
+TABLE["C06"] = _wrap(ValueFam, "value")
 _st = _wrap(StructuralFam, "structural")
 for _p in StructuralFam.PROPS:
     TABLE[_p] = _st
